@@ -443,6 +443,10 @@ func (s *c04State) exec(w []string) string {
 		res, _ := c04SST(w[1:])
 		return res
 	}
+	if w[0] == "typed" {
+		res, _ := c04Typed(w[1:])
+		return res
+	}
 	if w[0] == "sheet" {
 		d, ok := c04ParseDesc(w[1:])
 		if !ok {
@@ -1925,13 +1929,19 @@ func runC04(r *Run, rng *Rng, replay string) {
 		ns = 1500
 	}
 	c04SSTCases(r, NewRng(c04Sub(r.Seed, "sst", 0)), ns)
+	// 2d. typed cells: getValueFrom by cell type (model: render)
+	nt := 200
+	if thorough {
+		nt = 4000
+	}
+	c04TypedCases(r, NewRng(c04Sub(r.Seed, "typed", 0)), nt)
 	// 3. malformed op lines (driver and harness must both answer bad-op)
 	s := &c04State{r: r}
 	for _, l := range []string{"sheet ROW 1 0 C 1 1 0 61", "get 0 1", "get 1 0", "get 16385 1", "get 1 1048577", "style 16385 1", "style 1 1048577", "style 0 0", "vis 0", "vis 1048577", "rows"} {
 		s.op(l)
 		r.Stat("out-of-grid-op")
 	}
-	for _, l := range []string{"sheet ROW", "sheet ROW 1 0 C 1 1", "sheet ROW x 0", "sheet C 1 1 0 61", "rows 1", "get 1", "get a b", "search zz", "search 6", "vis", "frob", "sheet ROW 1 0 C 1 1 0 6", "sst", "sst q:61", "sst p:6", "sst r:61", "style 1", "spec", "cols x"} {
+	for _, l := range []string{"sheet ROW", "sheet ROW 1 0 C 1 1", "sheet ROW x 0", "sheet C 1 1 0 61", "rows 1", "get 1", "get a b", "search zz", "search 6", "vis", "frob", "sheet ROW 1 0 C 1 1 0 6", "sst", "sst q:61", "sst p:6", "sst r:61", "typed", "typed 2 p:61 / n:31", "typed 1 p:61 /", "typed 1 p:61 / q:31", "typed 1 / n:3", "style 1", "spec", "cols x"} {
 		s.op(l)
 		r.Stat("malformed-op")
 	}
@@ -2004,6 +2014,15 @@ func c04Replay(r *Run, path string) {
 			case "api", "xmlbatch", "spill":
 				sub, _ := strconv.ParseUint(w[2], 10, 64)
 				c04BatchCase(r, w[1], sub)
+			}
+			continue
+		}
+		if w[0] == "typed" {
+			ln, _ := s.op(line)
+			_, bad := c04Typed(w[1:])
+			for _, b := range bad {
+				p := strings.SplitN(b, "|", 2)
+				r.Fail(p[0], p[1]+" :: "+line, ln, line)
 			}
 			continue
 		}
@@ -2514,5 +2533,175 @@ func c04ApplyOp(f *xl.File, kind, sheet, cell, cell2, sval string, fval float64,
 	case "shared":
 		t, ref := xl.STCellFormulaTypeShared, cell+":"+cell2
 		f.SetCellFormula(sheet, cell, sval, xl.FormulaOpts{Type: &t, Ref: &ref})
+	}
+}
+
+// ---------------------------------------------------------------- typed cells (getValueFrom by cell type)
+
+func c04SIXML(it string) (string, bool) {
+	p := strings.Split(it, ":")
+	for _, h := range p[1:] {
+		if !c04IsHex(h) {
+			return "", false
+		}
+	}
+	switch {
+	case len(p) == 2 && p[0] == "p":
+		return `<t xml:space="preserve">` + c04Esc(unhx(p[1])) + `</t>`, true
+	case len(p) == 3 && p[0] == "r":
+		return `<r><t xml:space="preserve">` + c04Esc(unhx(p[1])) + `</t></r><r><rPr><b/></rPr><t xml:space="preserve">` + c04Esc(unhx(p[2])) + `</t></r>`, true
+	}
+	return "", false
+}
+
+// typed <raw> <sst items> / <cells>: the first row as GetRows shows it (raw or formatted); the
+// second result lists oracle complaints (GetCols, GetCellValue, SearchSheet on the same cells)
+func c04Typed(w []string) (string, []string) {
+	if len(w) < 3 || (w[0] != "0" && w[0] != "1") {
+		return "bad-op", nil
+	}
+	raw := w[0] == "1"
+	sep := -1
+	for i, x := range w {
+		if x == "/" {
+			sep = i
+		}
+	}
+	if sep < 1 || sep == len(w)-1 {
+		return "bad-op", nil
+	}
+	items, cells := w[1:sep], w[sep+1:]
+	c04SSTPackage([]string{"p:61"}) // make sure the template exists
+	var sst, row strings.Builder
+	fmt.Fprintf(&sst, `<?xml version="1.0" encoding="UTF-8" standalone="yes"?>`+"\n"+`<sst xmlns="http://schemas.openxmlformats.org/spreadsheetml/2006/main" count="%d" uniqueCount="%d">`, len(items), len(items))
+	for _, it := range items {
+		x, ok := c04SIXML(it)
+		if !ok {
+			return "bad-op", nil
+		}
+		sst.WriteString("<si>" + x + "</si>")
+	}
+	sst.WriteString("</sst>")
+	row.WriteString(`<row r="1">`)
+	for i, c := range cells {
+		ref := c04Name(i+1, 1)
+		if strings.HasPrefix(c, "is:") {
+			x, ok := c04SIXML(c[3:])
+			if !ok {
+				return "bad-op", nil
+			}
+			fmt.Fprintf(&row, `<c r="%s" t="inlineStr"><is>%s</is></c>`, ref, x)
+			continue
+		}
+		p := strings.Split(c, ":")
+		if len(p) != 2 || !c04IsHex(p[1]) {
+			return "bad-op", nil
+		}
+		switch p[0] {
+		case "b", "d", "s", "str", "e", "n":
+		default:
+			return "bad-op", nil
+		}
+		fmt.Fprintf(&row, `<c r="%s" t="%s"><v>%s</v></c>`, ref, p[0], c04Esc(unhx(p[1])))
+	}
+	row.WriteString("</row>")
+	pkg := c04RewritePart(c04SSTTmpl, "xl/sharedStrings.xml", func([]byte) []byte { return []byte(sst.String()) })
+	pkg = c04RewritePart(pkg, "xl/worksheets/sheet1.xml", func([]byte) []byte { return []byte(c04Hdr + row.String() + c04Ftr) })
+	f := c04Open(pkg)
+	defer f.Close()
+	opts := []xl.Options{}
+	if raw {
+		opts = append(opts, c04RawOpt)
+	}
+	g, err := f.GetRows("Sheet1", opts...)
+	if err != nil {
+		return "ERR", nil
+	}
+	res := "ok ~"
+	if len(g) > 0 {
+		res = c04Grid(g[:1], nil)
+	}
+	var bad []string
+	gc, _ := f.GetCols("Sheet1", opts...)
+	for i := range cells {
+		v, err := f.GetCellValue("Sheet1", c04Name(i+1, 1), opts...)
+		if err != nil {
+			bad = append(bad, "agree:getcellvalue-error|"+err.Error())
+			continue
+		}
+		if rv := c04CellOf(g, i+1, 1); rv != v {
+			bad = append(bad, fmt.Sprintf("agree:getrows-vs-getcellvalue|typed cell %s (%s): GetCellValue %q, GetRows %q", c04Name(i+1, 1), cells[i], v, rv))
+		}
+		if cv := c04CellOf(gc, 1, i+1); cv != v {
+			bad = append(bad, fmt.Sprintf("agree:getcols-vs-getcellvalue|typed cell %s (%s): GetCellValue %q, GetCols %q", c04Name(i+1, 1), cells[i], v, cv))
+		}
+		if !raw && v != "" {
+			hit, err := f.SearchSheet("Sheet1", v)
+			found := false
+			for _, h := range hit {
+				found = found || h == c04Name(i+1, 1)
+			}
+			if err != nil || !found {
+				bad = append(bad, fmt.Sprintf("agree:search-vs-getrows|typed cell %s (%s) shows %q, SearchSheet of that text = %v %v", c04Name(i+1, 1), cells[i], v, hit, err))
+			}
+		}
+	}
+	return res, bad
+}
+
+func c04TypedCases(r *Run, rng *Rng, n int) {
+	s := &c04State{r: r}
+	texts := []string{"a", "bb", "x y", "_x0041_b", "a_x005F_b", "_x0041", "TRUE", "1", "0", "42", "3.5", "<&>", "é", "#DIV/0!", "2020-01-01"}
+	run := func(line string) {
+		s.replay = nil
+		ln, _ := s.op(line)
+		r.Case(line, true)
+		r.Stat("typed")
+		_, bad := c04Typed(strings.Fields(line)[1:])
+		for _, b := range bad {
+			p := strings.SplitN(b, "|", 2)
+			r.Fail(p[0], p[1]+" :: "+line, ln, line)
+		}
+	}
+	item := func() string {
+		if rng.Chance(40) {
+			return "r:" + hx(rng.Pick(texts)) + ":" + hx(rng.Pick(texts))
+		}
+		return "p:" + hx(rng.Pick(texts))
+	}
+	run("typed 1 p:" + hx("plain") + " r:" + hx("_x0041_") + ":" + hx("z") + " / s:" + hx("1") + " s:" + hx("7") + " s:" + hx("-1") + " s:" + hx("x") + " b:" + hx("1") + " str:" + hx("_x0042_c") + " is:p:" + hx("in_x0043_") + " e:" + hx("#N/A") + " d:" + hx("2020-01-01") + " n:" + hx("42"))
+	run("typed 0 p:" + hx("plain") + " / b:" + hx("1") + " b:" + hx("0") + " b:" + hx("2") + " s:" + hx("0") + " str:" + hx("q") + " is:r:" + hx("a") + ":" + hx("b") + " e:" + hx("#N/A") + " n:" + hx("42"))
+	for i := 0; i < n; i++ {
+		raw := rng.Intn(2)
+		line := fmt.Sprintf("typed %d", raw)
+		k := rng.Range(1, 4)
+		for j := 0; j < k; j++ {
+			line += " " + item()
+		}
+		line += " /"
+		m := rng.Range(1, 7)
+		for j := 0; j < m; j++ {
+			switch rng.Intn(8) {
+			case 0:
+				line += " b:" + hx(rng.Pick([]string{"1", "0", "2", "TRUE"}))
+			case 1, 2:
+				line += " s:" + hx(rng.Pick([]string{"0", "1", "2", "3", "9", "-1", "x", "01"}))
+			case 3:
+				line += " str:" + hx(rng.Pick(texts))
+			case 4:
+				line += " is:" + item()
+			case 5:
+				line += " e:" + hx(rng.Pick([]string{"#N/A", "#DIV/0!", "#REF!"}))
+			case 6:
+				if raw == 1 {
+					line += " d:" + hx(rng.Pick([]string{"2020-01-01", "x"}))
+				} else {
+					line += " n:" + hx(rng.Pick([]string{"42", "3.5", "100"}))
+				}
+			default:
+				line += " n:" + hx(rng.Pick([]string{"42", "3.5", "0", "100", "7"}))
+			}
+		}
+		run(line)
 	}
 }
